@@ -8,6 +8,7 @@ for d in seeded/*/; do
   prop=$(python3 -c "import json;print(json.load(open('$d/meta.json'))['property'])")
   patch="$d/patch.diff"; [ -f "$d/patch.rebased.diff" ] && patch="$d/patch.rebased.diff"
   out=$(timeout 3000 tools/seedtest.sh "$(readlink -f $patch)" "$prop" 2>&1)
-  if echo "$out" | grep -q "^VIOLATION"; then st=caught; elif echo "$out" | grep -q "DOES NOT APPLY"; then st=NOAPPLY; elif echo "$out" | grep -q "^INCONCLUSIVE"; then st=INCONCLUSIVE; else st=MISSED; fi
+  sup=$(python3 -c "import json;print('superseded' if json.load(open('$d/meta.json')).get('superseded') else '')")
+  if echo "$out" | grep -q "^VIOLATION"; then st=caught; elif [ -n "$sup" ]; then st="superseded(expected-miss)"; elif echo "$out" | grep -q "DOES NOT APPLY"; then st=NOAPPLY; elif echo "$out" | grep -q "^INCONCLUSIVE"; then st=INCONCLUSIVE; else st=MISSED; fi
   echo "$n $prop $st $(echo "$out" | grep -o 'signature=[^ ]*' | head -2 | tr '\n' ' ')"
 done
